@@ -158,6 +158,26 @@ type Style struct {
 	Space      int  // 0 single spaces between all tokens, 1 minimal, 2 random XML white space
 	Rng        *rand.Rand
 	Literal    string // if set: this exact text (a recorded rendering) instead of a rendering
+	PadNum     int    // spelling of number literals: 0 canonical, 1 with a leading zero (010), 2 with a trailing zero (10.0, 1.50)
+}
+
+// padNumeral: another spelling of the same Number (section 3.7: Digits ('.' Digits?)? | '.' Digits)
+func padNumeral(t string, mode int) string {
+	if mode == 0 || t == "" || t == "." || t == ".." || strings.Trim(t, "0123456789.") != "" || strings.HasSuffix(t, ".") {
+		return t
+	}
+	switch mode {
+	case 1:
+		if t[0] != '.' {
+			return "0" + t
+		}
+		return t
+	default:
+		if strings.Contains(t, ".") {
+			return t + "0"
+		}
+		return t + ".0"
+	}
 }
 
 var prec = map[string]int{"or": 1, "and": 2, "eq": 3, "ne": 3, "lt": 4, "le": 4, "gt": 4, "ge": 4,
@@ -405,7 +425,7 @@ func joinTokens(toks []string, st Style) string {
 				}
 			}
 		}
-		b.WriteString(t)
+		b.WriteString(padNumeral(t, st.PadNum))
 	}
 	return b.String()
 }
